@@ -341,12 +341,61 @@ class Engine:
         return [(frozenset(vals), s) for vals, s in self.ev_seq(e.elts, st)]
 
     def ev_Dict(self, e, st):
+        if any(k is None for k in e.keys):
+            # {..., **mapping, ...}: entries in source order, later ones win
+            states = [({}, st)]
+            for k, v in zip(e.keys, e.values):
+                nxt = []
+                for acc, s in states:
+                    if k is None:
+                        for m, s2 in self.ev(v, s):
+                            if isinstance(m, Ref) and "@items" in s2.H(m):
+                                nxt.append(({**acc, **s2.H(m)["@items"]}, s2))
+                            elif isinstance(m, dict):
+                                nxt.append(({**acc, **m}, s2))
+                            else:
+                                raise Unsupported(f"** of {m!r} in a dict display")
+                    else:
+                        for kv, s2 in self.ev(k, s):
+                            for vv, s3 in self.ev(v, s2):
+                                nxt.append(({**acc, kv: vv}, s3))
+                states = nxt
+            outs = []
+            for acc, s in states:
+                s = self.fork(s)
+                outs.append((s.new("dict", {"@items": acc}), s))
+            return outs
         outs = []
         for ks, s in self.ev_seq(e.keys, st):
             for vs, s2 in self.ev_seq(e.values, s):
                 s2 = self.fork(s2)
                 r = s2.new("dict", {"@items": dict(zip(ks, vs))})
                 outs.append((r, s2))
+        return outs
+
+    def ev_DictComp(self, e, st):
+        """{k: v for x in <concrete iterable>}: evaluated entry by entry (an entry that raises ends that path)"""
+        if len(e.generators) != 1 or e.generators[0].ifs:
+            raise Unsupported("dict comprehension with filters / nesting")
+        gen = e.generators[0]
+        outs = []
+        for src, s in self.ev(gen.iter, st):
+            states = [({}, s)]
+            for it in self.iter_concrete(src, s):
+                nxt = []
+                for acc, s1 in states:
+                    s2 = self.fork(s1)
+                    s2.frames.append({})
+                    self.assign(gen.target, it, s2)
+                    for kv, s3 in self.ev(e.key, s2):
+                        for vv, s4 in self.ev(e.value, s3):
+                            s4 = self.fork(s4)
+                            s4.frames.pop()
+                            nxt.append(({**acc, kv: vv}, s4))
+                states = nxt
+            for acc, s1 in states:
+                s1 = self.fork(s1)
+                outs.append((s1.new("dict", {"@items": acc}), s1))
         return outs
 
     def ev_JoinedStr(self, e, st):
@@ -565,7 +614,7 @@ class Engine:
                     raise Unsupported("symbolic dict key")
                 if i in h["@items"]:
                     return [(h["@items"][i], s)]
-                self.raise_("KeyError", s)
+                self.raise_(ExcVal("KeyError", (i,)), s)
                 return []
             raise Unsupported(f"subscript of {v!r}")
         if isinstance(v, (tuple, str, bytes)):
@@ -1151,9 +1200,21 @@ class Engine:
             raise Unsupported(f"constructor of {f.name}")
         if callable(f) and not isinstance(f, (ClassV,)):
             return f(self, s, args, kwargs)
+        if isinstance(f, Ref):
+            for c in self.mro(f.cls):
+                if (c, "__call__") in self.methods:
+                    return self.methods[(c, "__call__")](self, s, f, args, kwargs)
         raise Unsupported(f"call of {f!r} at line {getattr(node, 'lineno', '?')}")
 
     def call_method(self, recv, name, args, kwargs, s):
+        if isinstance(recv, Ref) and recv.cls == "@citer" and name == "__next__":
+            s = self.fork(s)
+            h = s.H(recv)
+            if h["pos"] >= len(h["items"]):
+                self.raise_("StopIteration", s)
+                return []
+            h["pos"] += 1
+            return [(h["items"][h["pos"] - 1], s)]
         if isinstance(recv, Rec) and recv.name in self.theory:
             return self.theory_op(recv, name, args, s)
         if name == "join" and len(args) == 1 and isinstance(args[0], Rec) and args[0].name in self.theory:
